@@ -27,7 +27,7 @@ from typing import Any, Optional
 
 from vlib import common, simloop
 from vlib.common import KResult, Violation, Disagreement, Property
-from vlib.connharness import (GatedNet, Observer, make_settings, start_network, fire_timer, find_timer,
+from vlib.connharness import (GatedNet, Observer, SiteAudit, make_settings, start_network, fire_timer, find_timer,
                               SERVER_ADDR, CLEAR_PORT, OBFS_PORT)
 from vlib.simloop import settle
 
@@ -39,6 +39,34 @@ RANK = {'UNINITIALIZED': 0, 'CONNECTING': 1, 'CONNECTED': 2, 'CLOSING': 3, 'CLOS
 # --------------------------------------------------------------------------------------------
 
 HANG_S = 10.0
+
+# Every place where a task of the anchored code (network/connection.py, network/network.py) is found suspended
+# after a loop iteration, as `file:function>awaited` (`start` = created, first step not yet run).  These are the
+# suspension points the models name (open_connection, drain, wait_closed, stream reads, asyncio.wait / gather,
+# the response futures).  Anything else seen by vlib.connharness.SiteAudit is a `granularity` break.
+KNOWN_SITES = frozenset([
+    'connection.py:_message_reader_loop>start', 'connection.py:_read_message>readexactly', 'connection.py:_send>drain',
+    'connection.py:accept>start', 'connection.py:connect>open_connection', 'connection.py:disconnect>start',
+    'connection.py:disconnect>wait_closed', 'connection.py:send_message>start',
+    'network.py:_create_peer_connection_race>future', 'network.py:_create_peer_connection_race>wait',
+    'network.py:_get_peer_address>future', 'network.py:_handle_connect_to_peer>start',
+    'network.py:_make_direct_connection>start', 'network.py:_make_indirect_connection>start',
+    'network.py:_make_indirect_connection>wait', 'network.py:connect_listening_ports>future',
+    'network.py:connect_server>start', 'network.py:create_peer_connection>start',
+    'network.py:disconnect>future', 'network.py:disconnect>start',      # Network.disconnect(): the gather
+])
+
+
+def site_breaks(cases: list, impl: list) -> list:
+    """One Disagreement per await site that the models do not name (first case that shows it)."""
+    out, seen = [], set()
+    for c, io in zip(cases, impl):
+        for site in io.get('sites', []):
+            if site not in KNOWN_SITES and site not in seen:
+                seen.add(site)
+                out.append(Disagreement(c, {'await_site': site}, {'known_sites': sorted(KNOWN_SITES)},
+                                        'granularity: the anchored code suspends at a point the model does not name'))
+    return out
 
 
 class _Hang(BaseException):
@@ -60,8 +88,8 @@ class _Slot:
 
 def _run_impl(case: dict) -> dict:
     from aioslsk.network.network import Network, PeerFuture
-    from aioslsk.network.connection import (PeerConnection, ServerConnection, CloseReason, ConnectionState,
-                                            PeerConnectionState)
+    from aioslsk.network.connection import (PeerConnection, ServerConnection, ListeningConnection, CloseReason,
+                                            ConnectionState, PeerConnectionState)
     from aioslsk.events import EventBus
     from aioslsk.exceptions import ConnectionWriteError
     from aioslsk.protocol import obfuscation
@@ -85,6 +113,7 @@ def _run_impl(case: dict) -> dict:
             signal.setitimer(signal.ITIMER_REAL, HANG_S)
         except ValueError:
             pass
+        audit = SiteAudit(loop)
         fn = GatedNet().install()
         try:
             slots: list[_Slot] = []
@@ -100,6 +129,8 @@ def _run_impl(case: dict) -> dict:
                             s.conn = conn
                             return s.idx
                     return 'S'
+                if isinstance(conn, ListeningConnection):
+                    return 'L'
                 s = by_key.get((conn.hostname, conn.port))
                 if s is None:
                     return f'?{conn.hostname}:{conn.port}'
@@ -243,7 +274,8 @@ def _run_impl(case: dict) -> dict:
                     slot.cfg = arg
                     fn.release_connect(slot.key, 'ok')
                 elif name == 'connectFail':
-                    fn.release_connect(slot.key, 'refuse')
+                    # 'overflow': what open_connection does for a port > 65535 (not an OSError)
+                    fn.release_connect(slot.key, 'overflow' if arg == 'overflow' else 'refuse')
                 elif name == 'connectTimeout':
                     assert fire_timer(loop, c, 'connect', slot.task)
                 elif name == 'cancelAttempt':
@@ -368,10 +400,17 @@ def _run_impl(case: dict) -> dict:
                 return sorted(res)
 
             def snapshot(slot) -> tuple[str, dict]:
-                ev = [tok for (i, tok) in log if i == slot.idx]
-                stray = [(i, tok) for (i, tok) in log if i != slot.idx and i != 'S']
-                del log[:]
-                res = results(slot)
+                if slot is None:
+                    # Network.disconnect(): events of every connection, grouped by connection (ascending)
+                    ev = [tok for s in slots for (i, tok) in log if i == s.idx]
+                    stray = [(i, tok) for (i, tok) in log if not isinstance(i, int) and i not in ('S', 'L')]
+                    del log[:]
+                    res = sorted(r for s in slots for r in results(s))
+                else:
+                    ev = [tok for (i, tok) in log if i == slot.idx]
+                    stray = [(i, tok) for (i, tok) in log if i != slot.idx and i not in ('S', 'L')]
+                    del log[:]
+                    res = results(slot)
                 reg = []
                 for c in net.peer_connections:
                     reg.append(idx_of(c))
@@ -395,15 +434,58 @@ def _run_impl(case: dict) -> dict:
                     }
                 return line, facts
 
+            net_tasks: list = []
+
+            def new_enabled(origin, obf) -> bool:
+                if origin == 'incoming':
+                    return (OBFS_PORT if obf else CLEAR_PORT) in fn.listeners
+                if origin == 'back':
+                    w = fn.lib_writers.get(SERVER_ADDR)
+                    rt = net.server_connection._reader_task
+                    return w is not None and not w._closed and rt is not None and not rt.done()
+                if origin == 'server':
+                    return not any(s_.origin == 'server' for s_ in slots)
+                return True
+
             executed, lines, facts_l, skipped = [], [], [], []
             for op in case['ops']:
                 opno[0] = len(executed)
                 if op[0] == 'new':
                     _, origin, typF, slow, obf = op
+                    if not new_enabled(origin, obf):
+                        skipped.append(op)
+                        continue
                     slot = do_new(origin, typF, slow, obf)
                     await settle()
                     after_op(slot, 'new', None)
                     await settle()
+                elif op[0] == 'net':
+                    # Network.disconnect(), optionally with a connection that comes into existence in the same loop
+                    # iteration, behind the call (accepted by the listening socket / requested by another task)
+                    plan = []
+                    for s_ in slots:
+                        if s_.origin == 'back' and s_.task is not None and not s_.task.done():
+                            plan.append([s_.idx, 'cancelAttempt'])
+                        if (s_.origin == 'server' and s_.conn is not None) or \
+                                (s_.conn is not None and any(c is s_.conn for c in net.peer_connections)):
+                            plan.append([s_.idx, 'disconnect'])
+                    if len(op) > 2 and isinstance(op[2], list):
+                        extra = op[3] if len(op) > 3 else None        # an executed op being replayed: [.., plan, new?]
+                    else:
+                        extra = op[2:] if len(op) > 2 else None
+                    if extra is not None and not new_enabled(extra[0], extra[3]):
+                        extra = None
+                    if not plan and extra is None:
+                        skipped.append(op)
+                        continue
+                    net_tasks.append(asyncio.ensure_future(net.disconnect()))
+                    nslot = do_new(*extra) if extra is not None else None
+                    await settle()
+                    if nslot is not None:
+                        after_op(nslot, 'new', None)
+                        await settle()
+                    slot = None
+                    op = ['net', 'disconnect', plan] + ([list(extra)] if extra is not None else [])
                 else:
                     _, i, name = op[:3]
                     arg = op[3] if len(op) > 3 else None
@@ -421,12 +503,17 @@ def _run_impl(case: dict) -> dict:
                 executed.append(op)
                 lines.append(line)
                 facts_l.append(facts)
-            keep = (obs, bus, net, srv_tasks)  # noqa: F841  (strong refs until here)
+            keep = (obs, bus, net, srv_tasks, net_tasks)  # noqa: F841  (strong refs until here)
             return {'executed': executed, 'lines': lines, 'facts': facts_l, 'skipped': skipped, 'full': list(full),
-                    'hang': hang['hit'],
+                    'hang': hang['hit'], 'sites': sorted(audit.sites),
                     'loop_exceptions': [e for e in loop.exceptions if e.get('type') not in (None, 'CancelledError')]}
         finally:
             fn.uninstall()
+            audit.close()
+            try:
+                bus._events.clear()      # drop the bus' weak references now, not at interpreter exit
+            except Exception:
+                pass
 
     logging.disable(logging.CRITICAL)      # the library logs every scripted failure; nothing here reads the log
     try:
@@ -446,6 +533,14 @@ def _model_lines(executed: list) -> list[str]:
         if op[0] == 'new':
             _, origin, typF, slow, _obf = op
             out.append(f'new {origin} {int(bool(typF))} {int(bool(slow))}')
+        elif op[0] == 'net':
+            # Network.disconnect() = cancel the running connect-back tasks, then disconnect() on the server connection
+            # and on every connection registered at that moment; a connection created behind the call comes last
+            ls = [f'at {i} {what}' for i, what in op[2]]
+            if len(op) > 3:
+                origin, typF, slow, _obf = op[3]
+                ls.append(f'new {origin} {int(bool(typF))} {int(bool(slow))}')
+            out.append('\n'.join(ls))
         else:
             _, i, name = op[:3]
             arg = op[3] if len(op) > 3 else None
@@ -453,8 +548,8 @@ def _model_lines(executed: list) -> list[str]:
                 n = arg if isinstance(arg, int) else 1
                 # n concurrent calls issued in the same loop iteration = n calls one after the other
                 out.append(f'at {i} disconnect' + f'\nat {i} disconnect' * (n - 1))
-            elif name == 'closeDone':
-                out.append(f'at {i} closeDone')
+            elif name in ('closeDone', 'connectFail'):
+                out.append(f'at {i} {name}')
             elif name in ('frame', 'sendTimeout'):
                 out.append(f'at {i} {name} {int(bool(arg))}')
             elif arg is not None:
@@ -500,7 +595,7 @@ def _monitor(case: dict, impl: dict) -> list[Violation]:
     if impl['facts']:
         origin_of = {i: f['origin'] for i, f in impl['facts'][-1]['conns'].items()}
     for i, evs in per.items():
-        if i.startswith('?') or i == 'S':
+        if i.startswith('?') or i in ('S', 'L'):
             if i.startswith('?'):
                 add('C10-unknown-connection', f'events for a connection object the scenario did not create: {i}', evs[:4])
             continue
@@ -661,6 +756,59 @@ def _grid() -> list[dict]:
                                 o[2] in ('eof', 'frame', 'partialEof', 'readTimeout') or o[-1] == 'frame' for o in ending)):
                             continue
                         mk(base + f':{first}:{name}', [new, ['at', 0, 'firstFrame', first]] + ending + cl + tails[1])
+    # Network.disconnect(): alone, and with a connection that is accepted / requested while it is in progress (in the
+    # same loop iteration behind the call, or in the window a slow wait_closed opens)
+    behind = [None, ['incoming', 0, 0, 0], ['incoming', 0, 1, 1], ['direct', 0, 0, 0], ['direct', 1, 1, 1]]
+    setups = {
+        'empty': [],
+        'direct-established': [['new', 'direct', 0, 0, 0], ['at', 0, 'connectOk', 'ok']],
+        'direct-established-slow': [['new', 'direct', 0, 1, 0], ['at', 0, 'connectOk', 'ok']],
+        'direct-opening': [['new', 'direct', 0, 0, 0]],
+        'direct-init-parked': [['new', 'direct', 0, 1, 0], ['at', 0, 'connectOk', 'block']],
+        'back-opening': [['new', 'back', 0, 0, 0]],
+        'back-init-parked-slow': [['new', 'back', 0, 1, 0], ['at', 0, 'connectOk', 'block']],
+        'back-closing': [['new', 'back', 0, 1, 0], ['at', 0, 'connectOk', 'fail']],
+        'incoming-silent': [['new', 'incoming', 0, 0, 0]],
+        'incoming-silent-slow': [['new', 'incoming', 0, 1, 1]],
+        'incoming-established-slow': [['new', 'incoming', 0, 1, 0], ['at', 0, 'firstFrame', 'initP'], ['at', 0, 'send', 'block']],
+        'two': [['new', 'incoming', 0, 1, 0], ['at', 0, 'firstFrame', 'initP'], ['new', 'direct', 0, 0, 1],
+                ['at', 1, 'connectOk', 'ok']],
+    }
+    for sname, setup in setups.items():
+        n0 = sum(1 for o in setup if o[0] == 'new')
+        for b in behind:
+            ops = list(setup) + [['net', 'disconnect'] + (b if b else [])]
+            j = n0                       # index of the connection created behind the call
+            if b and b[0] == 'direct':
+                ops += [['at', j, 'connectOk', 'ok'], ['at', j, 'frame', 1]]
+            if b and b[0] == 'incoming':
+                ops += [['at', j, 'firstFrame', 'initP'], ['at', j, 'frame', 1]]
+            ops += [['at', k, 'closeDone', 'release'] for k in range(n0)]
+            if b:
+                ops += [['at', j, 'send', 'ok'], ['net', 'disconnect'], ['at', j, 'closeDone', 'release']]
+            ops += [['new', 'incoming', 0, 0, 0], ['new', 'direct', 0, 0, 0], ['at', 0, 'disconnect']]
+            mk(f'netdisconnect:{sname}:{"+".join(str(x) for x in b) if b else "alone"}', ops)
+        # the window a slow close opens: a connection requested while the gather is parked
+        if 'slow' in sname:
+            mk(f'netdisconnect:{sname}:window',
+               list(setup) + [['net', 'disconnect'], ['new', 'direct', 0, 0, 0], ['at', n0, 'connectOk', 'ok']]
+               + [['at', k, 'closeDone', 'release'] for k in range(n0)]
+               + [['at', n0, 'frame', 1], ['net', 'disconnect'], ['at', n0, 'send', 'ok']])
+    mk('netdisconnect:server', [['new', 'server', 0, 1, 0], ['at', 0, 'connectOk', 'ok'], ['new', 'incoming', 0, 0, 0],
+                                ['net', 'disconnect', 'direct', 0, 0, 0], ['at', 0, 'closeDone', 'release'],
+                                ['at', 2, 'connectOk', 'ok'], ['at', 0, 'restart'], ['at', 0, 'connectOk', 'ok'],
+                                ['net', 'disconnect']], server=True)
+    # a connect that fails with something that is not an OSError (a port > 65535 makes open_connection raise
+    # OverflowError; an unencodable host name UnicodeError)
+    for origin in ('direct', 'back'):
+        for slow in (0, 1):
+            mk(f'{origin}{"-slow" if slow else ""}:connect-raises-non-oserror',
+               [['new', origin, 0, slow, 0], ['at', 0, 'connectFail', 'overflow'], ['at', 0, 'disconnect'],
+                ['at', 0, 'send', 'ok']])
+            mk(f'{origin}{"-slow" if slow else ""}:local-while-opening:connect-raises-non-oserror',
+               [['new', origin, 0, slow, 0], ['at', 0, 'disconnect'], ['at', 0, 'connectFail', 'overflow']])
+    mk('server:connect-raises-non-oserror', [['new', 'server', 0, 0, 0], ['at', 0, 'connectFail', 'overflow'],
+                                             ['at', 0, 'restart'], ['at', 0, 'connectOk', 'ok']], server=True)
     # the server connection: the only one that may go CLOSED -> CONNECTING
     for slow in (0, 1):
         new = ['new', 'server', 0, slow, 0]
@@ -676,7 +824,7 @@ def _grid() -> list[dict]:
     return cases
 
 
-OPS_W = [('connectOk', 'ok', 8), ('connectOk', 'block', 3), ('connectOk', 'fail', 2), ('connectFail', None, 3),
+OPS_W = [('connectFail', 'overflow', 1), ('connectOk', 'ok', 8), ('connectOk', 'block', 3), ('connectOk', 'fail', 2), ('connectFail', None, 3),
          ('connectTimeout', None, 2), ('cancelAttempt', None, 4), ('firstFrame', 'initP', 4), ('firstFrame', 'initF', 1),
          ('firstFrame', 'pierceP', 2), ('firstFrame', 'pierceF', 1), ('firstFrame', 'pierceUnknown', 1),
          ('firstFrame', 'undecodable', 1), ('frame', 1, 5), ('frame', 0, 2), ('partialEof', None, 1), ('eof', None, 2),
@@ -698,6 +846,13 @@ def _gen_random(rng: random.Random) -> dict:
             ops.append(['new', origin, int(typF), int(rng.random() < 0.5), int(rng.random() < 0.3)])
             made += 1
             continue
+        if rng.random() < 0.06:
+            b = rng.choice([None, None, ['incoming', 0, int(rng.random() < 0.5), int(rng.random() < 0.3)],
+                            ['direct', int(rng.random() < 0.2), int(rng.random() < 0.5), 0]])
+            ops.append(['net', 'disconnect'] + (b if b else []))
+            if b:
+                made += 1
+            continue
         name, arg = rng.choice(pool)
         i = rng.randrange(made)
         ops.append(['at', i, name] + ([arg] if arg is not None else []))
@@ -716,6 +871,12 @@ def _eval_case(case):
 
 # known inputs, always replayed (the replay inputs of fixes/C10-*.md)
 WITNESSES = [
+    {'kind': 'witness:accepted-during-network-disconnect', 'server': False,
+     'ops': [['new', 'direct', 0, 0, 0], ['at', 0, 'connectOk', 'ok'], ['net', 'disconnect', 'incoming', 0, 0, 0]]},
+    {'kind': 'witness:connect-raises-non-oserror', 'server': False,
+     'ops': [['new', 'direct', 0, 0, 0], ['at', 0, 'connectFail', 'overflow']]},
+    {'kind': 'witness:silent-incoming-peer', 'server': False,
+     'ops': [['new', 'incoming', 0, 0, 0], ['net', 'disconnect']]},
     {'kind': 'witness:accept-eof-before-init', 'server': False,
      'ops': [['new', 'incoming', 0, 0, 0], ['at', 0, 'eof']]},
     {'kind': 'witness:accept-bad-init', 'server': False,
@@ -735,8 +896,12 @@ class C10(Property):
             'obfuscated x wait_closed {returns, suspends} x ending {refused, connect timeout, cancelled while opening / '
             'while sending the init message / while closing, local disconnect (1 or 2 concurrent calls) in every phase, '
             'init write fails / drain times out / reset, EOF / reset / partial frame / read timeout before and after the '
-            'init message, undecodable init, unknown pierce ticket, send fails / times out, server restart}, each followed '
-            'by further disconnect/send calls; plus random op sequences (6..22 ops over 1..3 connections) derived from '
+            'init message, undecodable init, unknown pierce ticket, send fails / times out, server restart, connect raising a '
+            'non-OSError}, each followed '
+            'by further disconnect/send calls; Network.disconnect() over 12 set-ups, alone and with a connection accepted / '
+            'requested in the same loop iteration behind the call or in the window a slow wait_closed opens (model: cancel '
+            'of the running connect-back tasks + disconnect() on the server connection and every registered connection); '
+            'plus random op sequences (6..22 ops over 1..3 connections) derived from '
             'VERIF_SEED. A case is non-trivial when a connection was reported CLOSED and at least 3 ops were executed; '
             'distinct = distinct executed op list')
     assumptions = [
@@ -784,6 +949,8 @@ class C10(Property):
             model = [[_merge_lines(out[a:a + k]) for a, k in groups] for groups in spans]
         else:
             res.model_available = False
+        res.disagreements += site_breaks(cases, impl)
+        res.count('await-sites-seen', len({x for io in impl for x in io.get('sites', [])}))
         for i, c in enumerate(cases):
             io = impl[i]
             res.evaluations += 1
@@ -791,7 +958,8 @@ class C10(Property):
             res.count('ops-executed', len(io['executed']))
             res.count('ops-skipped(not enabled)', len(io['skipped']))
             for op in io['executed']:
-                res.count('op:' + (op[0] if op[0] == 'new' else op[2]))
+                res.count('op:' + ('net-disconnect' + ('+new' if len(op) > 3 else '') if op[0] == 'net'
+                                   else op[0] if op[0] == 'new' else op[2]))
             for l in io['lines']:
                 for tok in l.split(' ')[0][3:].split(','):
                     if tok:
